@@ -77,6 +77,20 @@ def run(tier, seed):
                 R.guard("monomial-power", {"c": str(c), "k": k, "n": n, "identity": "m**n * m**-n == 1"}, lambda: (pd_eq(pd_of(m_ ** n * m_ ** -n), {0: 1}), "m**n * m**-n = %r" % pd_of(m_ ** n * m_ ** -n)))
         lau = x ** -2 + 3 * x ** -1 + 1
         R.guard("composition-with-a-monomial", {"c": str(c)}, lambda: (pd_eq(pd_of(lau(c * x)), {-2: c ** -2, -1: 3 * c ** -1, 0: 1}), "(x^-2 + 3x^-1 + 1)(%s x) = %r" % (c, pd_of(lau(c * x)))))
+    # scale: large exponents of a two-term polynomial (exact integers beyond 2**53), hash / eq of polynomials with many terms
+    import math as _math
+    for n in (20, 57, 64):
+        R.guard("pow-is-n-fold-product", {"p": "1 + x", "n": n}, lambda: (pd_eq(pd_of((x + 1) ** n), {k: _math.comb(n, k) for k in range(n + 1)}), "(1 + x)**%d is not the binomial expansion" % n))
+        R.guard("pow-is-n-fold-product", {"p": "2 - 3x^2", "n": n}, lambda: (pd_eq(pd_of((2 - 3 * x ** 2) ** n), {2 * k: _math.comb(n, k) * 2 ** (n - k) * (-3) ** k for k in range(n + 1)}), "(2 - 3x^2)**%d" % n))
+    def many_terms():
+        a = sum((F(k + 1, 3) * x ** k for k in range(0, 24, 2)), 0 * x)
+        b = sum((F(2 * k - 5, 7) * x ** k for k in range(1, 25, 2)), 0 * x)
+        c = x ** 2 - 3
+        for l, r_, nm in ((a + b, b + a, "a+b = b+a"), (c * (a + b), c * a + c * b, "c(a+b) = ca+cb"), ((a * b), (b * a), "ab = ba")):
+            if not (l == r_) or (l != r_) or hash(l) != hash(r_):
+                return False, "%s with %d terms: == %r, != %r, hashes equal %r" % (nm, len(dict(l.terms())), l == r_, l != r_, hash(l) == hash(r_))
+        return True, ""
+    R.guard("eq=>hash-equal-and-not-ne", {"terms": "more than 16"}, many_terms)
     # exact Lagrange interpolation on non-dyadic rational data (no float may appear)
     for pts in ([(F(-1), F(1, 3)), (F(0), F(2, 7)), (F(2), F(-5, 9))], [(F(1, 3), F(1)), (F(2, 3), F(4)), (F(5, 3), F(-2)), (F(3), F(1, 7))]):
         def lagex():
